@@ -328,6 +328,28 @@ def check(P, R):
 def check_body_read(P, R):
     f = P.func(f'{BM}:_body_read')
     g, rd = f.cfg, f.rd
+    # the reader is started once, with the buffer size it was given: a second reader starts counting Content-Length from zero again and reads past the body; a
+    # block size that can be 0 makes read(0) return b'' - which the reader takes for the end of the stream
+    starts = []
+    for c in walk_shallow(f.node):
+        if isinstance(c, ast.Call) and c.args and isinstance(c.args[0], ast.Name) and c.args[0].id == f.params[0] and isinstance(c.func, (ast.Name, ast.Attribute)):
+            ns_ = g.node_of_stmt(c)
+            cl_ = rd.closure_nodes(c.func, ns_[0]) if ns_ else []
+            if any(isinstance(x, ast.Name) and x.id in ('_iter_body', '_iter_chunked') for x in cl_) or dotted(c.func) in ('_iter_body', '_iter_chunked'):
+                starts.append(c)
+    if starts:
+        R.ob('C04.d', f, starts[1] if len(starts) > 1 else starts[0], len(starts) == 1, text=f'the part reader is started once ({len(starts)} call(s))', detail='' if len(starts) == 1 else
+             f'`{short(starts[1])}` starts a second reader on the same stream: it counts the declared length from zero again, so after the bytes already consumed another '
+             f'Content-Length bytes are pulled - the stream is read beyond the body (the next request on the connection is eaten)',
+             why='the stream is never read beyond Content-Length', key_extra='reader-once')
+        for c in starts:
+            a1 = c.args[1] if len(c.args) > 1 else None
+            ns_ = g.node_of_stmt(c)
+            okb = isinstance(a1, ast.Name) and a1.id == f.params[1] and all(d.kind == 'param' for d in rd.at(ns_[0], a1.id))
+            R.ob('C04.d', f, c, okb, text=f'{short(c)}: block size = the configured buffer size', detail='' if okb else
+                 f'the reader is given `{short(a1) if a1 is not None else "?"}` as its block size, not the buffer size itself: where that can be 0 (a limit of 0) read(0) returns '
+                 f"b'' and the reader stops as if the stream had ended - the body is presented empty instead of being read (or refused)",
+                 why='the body presented is exactly the first Content-Length bytes, whatever limits are configured', key_extra='block-size')
     fors = [n for n in walk_shallow(f.node) if isinstance(n, ast.For)]
     R.require(len(fors) == 1, f'{f.fq}: expected exactly one part loop, found {len(fors)}')
     loop = fors[0]
